@@ -199,7 +199,9 @@ def write_svg(matrix, matrix_size, out, colormap, scale=1, border=None, xmldecl=
     if need_background:
         # Additional path for the background, will be modified after
         # the SVG paths have been generated
-        coordinates[colormap[consts.TYPE_QUIET_ZONE]] = [(0, 0, width // scale)]
+        # Size of the symbol incl. border in modules (the path is scaled by the transform)
+        mwidth, mheight = get_symbol_size(matrix_size, scale=1, border=border)
+        coordinates[colormap[consts.TYPE_QUIET_ZONE]] = [(0, 0, mwidth)]
     if not draw_transparent:
         try:
             del coordinates[None]
@@ -233,7 +235,7 @@ def write_svg(matrix, matrix_size, out, colormap, scale=1, border=None, xmldecl=
         k = colormap[consts.TYPE_QUIET_ZONE]
         paths[k] = re.sub(r'\sclass="[^"]+"', '',
                           paths[k].replace('stroke', 'fill')
-                                  .replace('"/>', f'v{height // scale}h-{width // scale}z"/>'))
+                                  .replace('"/>', f'v{mheight}h-{mwidth}z"/>'))
     svg = ''
     if xmldecl:
         svg += '<?xml version="1.0"'
